@@ -6,6 +6,13 @@ ROOT = os.path.dirname(os.path.dirname(os.path.abspath(__file__)))
 
 # id -> (category, technique, level text, level note, design ref)
 CHECKS = {
+ "C07": ("fault_enumeration",
+   "exhaustive enumeration of the grid base scenario x step index x termination cause x Stop held/handled x role (plus every byte offset inside the packet being delivered for peer close / read error), teardown oracle over the application log and owned futures",
+   "Nine base scenarios (idle; publishes in flight with gated handlers; inbound payload half received with a reader waiting; outbound sends awaiting acknowledgement; senders parked on a full window; ready() parked on write back-pressure; outbound stream half written; "
+   "gated protocol handler with packets buffered; mixed) x every step index x 12-17 causes per role x Stop notification handled at once or held open x four roles; byte offsets 1..39 inside inbound packets for peer close / read error. "
+   "Exactly one Stop of the class the cause demands and no control call after it, every owned future resolved, no clean end of an incomplete payload, no handler cancelled before the held Stop was handled and none left running, connection task finished, no panic.",
+   "Trusted: as C03. Keep-alive expiry is exercised by C20; a failing back-pressure notification does not end the connection in this library and is only required not to break teardown.",
+   "DESIGN.md section 3 C07"),
  "C08": ("exploration",
    "stateful proptest histories of sink operations and inbound traffic plus deterministic scenarios; whole-stream parse with the reference decoder and a supplied-bytes oracle",
    "Plain, failing (over-long topic/user property, over the peer's Maximum Packet Size, id in use, send while a payload is owed) and streamed sends (QoS 0/1, arbitrary chunkings, under-/over-delivery, drops, failing starts) interleaved with inbound PUBLISH/PINGREQ/SUBSCRIBE "
